@@ -1,5 +1,5 @@
 """Which cases and clauses make up each property (DESIGN.md section 7)."""
-from . import aggregate, carriers, fx, invariance, store, profile, relational, qartod_attenuated, qartod_clim, qartod_flatline, qartod_location, qartod_range, qartod_spike, rate, utils_c
+from . import aggregate, carriers, collect, fx, invariance, store, profile, relational, qartod_attenuated, qartod_clim, qartod_flatline, qartod_location, qartod_range, qartod_spike, rate, utils_c
 
 T_COMMON = [
     "T1 pyvc itself (proxy values, path exploration, VC generation) - mitigated by the conformance run, canaries and covers",
@@ -36,6 +36,7 @@ def _all_cases():
     cs += carriers.bounded_cases()
     cs += fx.cases()
     cs += store.cases()
+    cs += collect.cases()
     cs += qartod_clim.add_cases()
     cs += [utils_c.Gcd()]
     return cs
@@ -65,6 +66,7 @@ PROPS = {
     "C02": _p("proof", "missing => MISSING (or UNKNOWN where undefined) and MISSING only when a needed value is missing, as postconditions at a Skolem index of the real functions", [T_GEOD, T_ROLL, T_STAT]),
     "C03": _p("proof", "every obligation generated from the real gross_range_test / valid_range_test is discharged for symbolic length, contents, spans and all inclusivity settings"),
     "C04": _p("proof", "qartod_compare: five priorities unrolled, inner loop over a symbolic number of vectors cut by the invariant result[i] = ite(exists q<j. hit(q,i,p), p, roll-up of lower priorities); lemmas: never better than the worst input, permutation, duplication, grouping; aggregate() through the callee contract", assumptions=["PandasStore.compute_aggregate: verified under C19"]),
+    "C06": _p("proof", "collect_results_list / collect_results_dict on a symbolic number of ContextResults over n rows: the loop is cut with the invariant 'mask(i) <=> no processed result context covers i; covered rows hold that context's flag and the source columns', the prior state being an arbitrary one (absent key, accumulators, or the arrays of an earlier all-covering context). Context arrays are selections (base column, window predicate), so no rank arithmetic is needed. Order independence for disjoint windows: the postcondition does not mention the order", ["ContextResults as produced by the streams: arrays are the selections of full columns by subset_indexes, at most one CallResult per ContextResult, not writable"], assumptions=["all contexts of the run under consideration share one (stream, module, test) key; entries of other keys are untouched because a dict entry is reached only through its key (Python dict semantics) and keys of different triples differ", "windows of contexts with a result are pairwise disjoint (the statement's premise)"]),
     "C19": _p("other", "deductive: cf_safe_name over z3 strings (position-wise: only safe characters, never a leading digit, safe characters kept) with re.match/re.sub as point-wise contracts; column_from_collected_result against the label specification; PandasStore.save with the result loop cut: one arbitrary iteration from an arbitrary frame adds exactly the columns the statement names (axes iff write_axes and absent and non-empty, data iff kept and write_data, the result column iff kept and its name is free; include/exclude as uninterpreted membership) for all 16 filter/flag settings; compute_aggregate appends aggregate(all results). bounded: uniqueness of the column per result on concrete stream ids", ["pandas DataFrame as an ordered map name -> column (membership, item assignment)", "re.match / re.sub on single-character classes (ASCII)"], assumptions=["the induction from 'one arbitrary iteration adds the stated columns' to the whole frame is the loop-cut meta-argument (the body reads only the frame and its own result)", "row alignment of the columns is inherited from collect_results (C06)"], bounded=["StoreUnique: 21 pairs of stream ids x 2 test sets on the real PandasStore.save"]),
     "C20": _p("other", "deductive: evaluate_stack against the value of a ghost expression tree, per constructor with the recursive calls bound to the contract (induction on depth), for an arbitrary stack prefix - hence independent of the never-cleared module stack; eval_fx relative to the grammar contract; _validate_fx token loop (stateless cut) against the statement's token classes over z3 strings. bounded: the pyparsing grammar itself (combinators built at run time) against ordinary arithmetic on generated expressions with failing parses in between", ["pyparsing grammar BNF(): contract 'parseString appends the postfix form' (bounded check)", "builtins.float(str): parsability and value uninterpreted; character classes ASCII"], assumptions=["QcConfigCreator.create_config (xarray + scipy CubicSpline over climatology files) is not covered: no contract within reach expresses the interpolation; this part of C20 is not claimed"], bounded=["grammar: expressions of depth <= 1 (quick) / 2 (thorough) over 3 literals, 4 statistics, + - * /, unary minus, parentheses; histories of 1-2 earlier evaluations incl. failing parses"]),
     "C15": _p("other", "deductive: every QC test executed with opaque input carriers - obligation carrier-opaque (the test touches its data inputs only through np.array(.) and its time input only through mapdates(.)), so its flags are a function of the normalised series; bounded: the carrier conversions themselves (numpy / pandas / dask behaviour) are checked by running the real functions on every carrier of concrete series and comparing with the canonical call", [T_GEOD, T_ROLL, T_STAT], bounded=["carrier conversion facts: 8 data carriers x 10 time carriers on sampled concrete series (12 per test quick, 120 thorough), flags compared with the canonical ndarray/datetime64[ns] call"]),
